@@ -65,6 +65,7 @@ pub fn run(args: &Args) {
                     for (s, o) in built.history.steps.iter().zip(st.outcomes.iter()) {
                         labels.push(format!("compile:{}:{o}", crate::history::mode_name(s.mode)));
                     }
+                    labels.extend(built.agreement_labels(&st.outcomes));
                     if st.diagnostics == 0 {
                         labels.push("history-without-failing-compile".into());
                     }
